@@ -157,7 +157,7 @@ func startChild(dir, arm string) (*Child, error) {
 		close(c.waited)
 	}()
 	// wait for "ready"
-	r, err := c.read(30 * time.Second)
+	r, err := c.read(120 * time.Second)
 	if err != nil || r.Text != "ready" {
 		killed := false
 		select {
